@@ -14,12 +14,18 @@ def cases(tier, seed, ctx=None):
     rng = Rng(seed)
     heads = [h for h in G.malformed_heads(rng, 400 if tier == "quick" else 3000)
              if (h + b"\r\n\r\n").find(b"\r\n\r\n") == len(h)]
+    # rejected heads longer than the 16 KiB blocks of QIODevice, arriving in one piece (or waiting before the socket exists)
+    heads += [b"BOGUS" + b" x" * 8500, b"GET /p HTTP/1.1\r\nX: " + b"y" * 16380 + b"\r\nNoColon"]
     ver, tab = G.oracle(ctx, [G.head_target(h) for h in heads])
     for h in heads:
         env = G.env_for(ver, tab, [G.head_target(h)])
         for trailing in ([rng.choice(TRAIL)] if tier == "quick" else TRAIL):
             stream = h + b"\r\n\r\n" + trailing
-            for segs in G.partitions_for(rng, stream, tier):
+            if len(stream) > 8000:      # long heads: a few coarse segmentations only (the model is quadratic in steps x buffer)
+                seglist = [[stream], [stream[:16384], stream[16384:]], [stream[:len(stream) - 2], stream[len(stream) - 2:]]]
+            else:
+                seglist = G.partitions_for(rng, stream, tier)
+            for segs in seglist:
                 for prebuf in (0, rng.range(1, max(1, len(segs))), 99):
                     k = min(prebuf, len(segs))
                     ops = [G.Feed(s) for s in segs[:k]] + [G.Construct]
